@@ -44,7 +44,7 @@ def c03(c):
     variants = "imm,lazy"
 
     # 1. spec -> code, exhaustive transition covers
-    covers = [("MCVersionedTree_rot_q.cfg", 5, "all AVL shapes over 5 keys x every mutation and observer instance"),
+    covers = [("MCVersionedTree_rot_q.cfg", 6, "all AVL shapes over 6 keys x every mutation and observer instance"),
               ("MCVersionedTree_ver_q.cfg", 3, "version management over 3 keys, <= 2 versions, histories <= 7")]
     if thorough:
         covers = [("MCVersionedTree_rot_t.cfg", 7, "all AVL shapes over 7 keys x every mutation and observer instance"),
@@ -161,6 +161,10 @@ def c05(c):
     c.add("proof_cases_verified", rep["extra"]["cases"])
     c.add("proof_cases_unconstrained", rep["extra"]["cases_unconstrained"])
     c.cov["cases_by_class"] = rep["extra"]["cases_by_class"]
+    c.cov["abandoned"] = rep["extra"].get("abandoned", 0)
+    if c.cov["abandoned"]:
+        c.note("%d queries abandoned: the real proof has not the structure the specification predicts (tree shape / proof builder "
+               "differ from the model -- outside C05's statement, see C03); their honest answers were still verified" % c.cov["abandoned"])
     vf.replay_mismatch_violations(c, rep, "C05 replay " + cfg, cmd)
     known_seen = {}            # finding id -> list of "what was observed" fragments
     hits = rep["extra"].get("known_hits", {})
